@@ -138,6 +138,9 @@ func (g Group) ValidatePausable() error {
 		return ErrGroupClosed
 	case GroupPaused:
 		return ErrGroupPaused
+	case GroupInsufficientFunds:
+		// set only when the deployment was closed for lack of funds; terminal like closed
+		return ErrGroupClosed
 	default:
 		return nil
 	}
@@ -150,6 +153,9 @@ func (g Group) ValidateStartable() error {
 		return ErrGroupClosed
 	case GroupOpen:
 		return ErrGroupOpen
+	case GroupInsufficientFunds:
+		// set only when the deployment was closed for lack of funds; terminal like closed
+		return ErrGroupClosed
 	default:
 		return nil
 	}
